@@ -55,6 +55,27 @@ def run(ctx):
     if len(loops) != 1:
         raise AnalysisError("zmethod.getPoints: expected one main while loop")
     main = loops[0]
+    from . import common as _common
+    _common.READ_LOOPS[fi.qualname] = (fi, main)
+    # (an exit that returns no knee at all satisfies every clause of this property, whatever its condition)
+    _common.account_exits(fi, lambda r: isinstance(r.value, (ast.List, ast.Tuple)) and not r.value.elts)
+
+    def _ascending_keys(r) -> bool:
+        # the selection is handed over as the ascending list of its x values: np.array(list(sorted(D.keys()))) / sorted(D) - no key, no reverse
+        e = r.value
+        while isinstance(e, ast.Call) and ast.unparse(e.func) in ("np.array", "np.asarray", "numpy.array", "list", "tuple") and len(e.args) == 1 and not e.keywords:
+            e = e.args[0]
+        if isinstance(e, ast.Call) and isinstance(e.func, ast.Name) and e.func.id == "sorted" and len(e.args) == 1 and not e.keywords:
+            a = e.args[0]
+            return isinstance(a, ast.Name) or (isinstance(a, ast.Call) and isinstance(a.func, ast.Attribute) and a.func.attr == "keys" and not a.args)
+        return False
+    _common.account_returns(fi, _ascending_keys)
+    for r_ in [n_ for n_ in ast.walk(fi.node) if isinstance(n_, ast.Return) and getattr(n_, "lineno", 0) > main.lineno]:
+        for c_ in ast.walk(r_):
+            if isinstance(c_, ast.Call) and isinstance(c_.func, ast.Name) and c_.func.id == "sorted" \
+                    and any(k_.arg == "reverse" and isinstance(k_.value, ast.Constant) and bool(k_.value.value) for k_ in c_.keywords):
+                rc.res.violation("Z3", fi.module, fi.name, r_, "the selected x values are handed over in descending order: the indices they are mapped to are not increasing",
+                                 ast.unparse(r_)[:100], "sorted(outlier_points.keys())", construct="selection order")
     k = fi.node.body.index(main)
     # the prologue up to (not including) the statement that builds the (x, y, z-score) working array
     pro = []
